@@ -33,7 +33,7 @@ class Unit:
                  result=None, invariants=None, variants=None, native=None, bounds=(), gen=None, inline=(),
                  abstract=None, module_consts=None, safety=('index', 'div'), trusted=False, short=None,
                  doc='', while_bound=6, fresh_attr=None, canary=None, timeout_ms=8000, defaults=None,
-                 exec_cls=None, self_class=None):
+                 exec_cls=None, self_class=None, cases=None):
         self.props = [props] if isinstance(props, str) else list(props)
         self.qualname = qualname
         self.short = short or qualname.split(':')[1]
@@ -58,6 +58,7 @@ class Unit:
         self.defaults = defaults or {}
         self.exec_cls = exec_cls or Exec
         self.self_class = self_class
+        self.cases = list(cases or [{}])
         self._view0 = None
         self._fndef = None
         if qualname in REGISTRY:
@@ -279,40 +280,46 @@ def verify_unit(unit, tier='quick', dump_dir=None):
         res.error = ('unsupported', 'cannot locate %s: %s' % (unit.qualname, e))
         return res
     lib.USED.clear()
-    c = Ctx('sym')
-    try:
-        ex, outs, mi, fn = build_obligations(unit, c)
-    except Unsupported as e:
-        res.error = ('unsupported', str(e))
-        return res
-    except (EngineError, _Raise) as e:
-        res.error = ('engine', '%s: %s' % (type(e).__name__, e))
-        return res
-    except Exception as e:
-        res.error = ('engine', traceback.format_exc(limit=8))
-        return res
-    res.lib_used = sorted(lib.USED)
-    res.paths = len(outs)
-    sum_extensionality(c)
     jobs = []
     meta = {}
-    for o in ex.obls:
-        if z3.is_true(z3.simplify(o.goal)) if is_sym(o.goal) else o.goal is True:
-            res.obls.append(OblResult(o.name, o.kind, o.line, 'unsat', 0.0, 'syntactic'))
-            continue
+    ctxs = []
+    for case in unit.cases:
+        label = ''.join('[%s=%s]' % kv for kv in sorted(case.items()))
+        c = Ctx('sym', fixed=case)
         try:
-            text = solve.to_smt2(c, o.hyps, o.goal)
-        except z3.Z3Exception as e:
-            res.error = ('engine', 'smt encoding of %s: %s' % (o.name, e))
+            ex, outs, mi, fn = build_obligations(unit, c)
+        except Unsupported as e:
+            res.error = ('unsupported', label + str(e))
             return res
-        jobs.append((o.name, text))
-        meta[o.name] = o
-        res.smt[o.name] = text
+        except (EngineError, _Raise) as e:
+            res.error = ('engine', '%s%s: %s' % (label, type(e).__name__, e))
+            return res
+        except Exception as e:
+            res.error = ('engine', label + traceback.format_exc(limit=8))
+            return res
+        res.paths += len(outs)
+        sum_extensionality(c)
+        ctxs.append((label, c, ex))
+        for o in ex.obls:
+            o.name = label + o.name
+            if z3.is_true(z3.simplify(o.goal)) if is_sym(o.goal) else o.goal is True:
+                res.obls.append(OblResult(o.name, o.kind, o.line, 'unsat', 0.0, 'syntactic'))
+                continue
+            try:
+                text = solve.to_smt2(c, o.hyps, o.goal)
+            except z3.Z3Exception as e:
+                res.error = ('engine', 'smt encoding of %s: %s' % (o.name, e))
+                return res
+            jobs.append((o.name, text))
+            meta[o.name] = o
+            res.smt[o.name] = text
+    res.lib_used = sorted(lib.USED)
     verdicts = solve.discharge(jobs, timeout_ms=unit.timeout_ms)
     for n, _ in jobs:
         o = meta[n]
         v, dt, be, reason = verdicts[n]
         res.obls.append(OblResult(o.name, o.kind, o.line, v, dt, be, reason))
+    label, c, ex = ctxs[0]
     # vacuity guards
     pre_s = z3.Solver()
     pre_s.set('timeout', 3000)
@@ -360,6 +367,8 @@ def model_values(c, m):
                 vals[name] = bool(c.fixed[name])
             else:
                 vals[name] = z3.is_true(m.eval(z3.Bool(name), model_completion=True))
+        elif kind == 'choice':
+            vals[name] = c.fixed[name]
         elif kind == 'arr':
             shape, f, akind = extra
             dims = []
@@ -453,6 +462,13 @@ def native_check(unit, values):
             for k, g in _named(unit.post(c, v0, CView(after), ret)):
                 if not g:
                     failed.append('post.%s' % k)
+        except (ZeroDivisionError, OverflowError, FloatingPointError) as e:
+            return {'status': 'pre-false', 'why': 'postcondition not evaluable at this input: %r' % (e,)}
+        except ValueError as e:
+            if 'math domain' in str(e):
+                return {'status': 'pre-false', 'why': 'postcondition not evaluable at this input: %r' % (e,)}
+            return {'status': 'violation', 'failed': ['post.<not evaluable>'],
+                    'observed': 'postcondition not evaluable on the returned value: %r (returned %s)' % (e, _short(ret))}
         except Exception as e:
             return {'status': 'violation', 'failed': ['post.<not evaluable>'],
                     'observed': 'postcondition not evaluable on the returned value: %r (returned %s)' % (e, _short(ret))}
@@ -478,7 +494,7 @@ def bmc_falsify(unit, max_models=4, timeout_ms=8000):
     found = []
     tried = 0
     notes = []
-    for sizes in unit.bounds:
+    for sizes in [dict(b, **case) for case in unit.cases for b in unit.bounds]:
         c = Ctx('bmc', fixed=sizes)
         try:
             ex, outs, mi, fn = build_obligations(unit, c)
